@@ -45,6 +45,7 @@ from isla.helpers import (
     Maybe,
     get_isla_resource_file_content,
     eassert,
+    nonterminals,
 )
 from isla.isla_predicates import (
     STANDARD_STRUCTURAL_PREDICATES,
@@ -762,6 +763,20 @@ def parse_grammar(
                     file=stderr,
                 )
                 sys.exit(USAGE_ERROR)
+
+        undefined_nonterminals = sorted(
+            {
+                nonterminal
+                for expansions in grammar.values()
+                for expansion in expansions
+                for nonterminal in nonterminals(expansion)
+            }
+            - set(grammar)
+        )
+        if undefined_nonterminals:
+            raise SyntaxError(
+                "the grammar has no rules for " + ", ".join(undefined_nonterminals)
+            )
 
     except Exception as exc:
         exc_string = str(exc)
